@@ -142,7 +142,7 @@ def spec_nary(chk, name, N, allow=("Integer", "Rational", "Real")):
         ex.ctx.add(v.is_number, v.num.valid())
     seq = nl.seq_of(ex, "args", [v.obj for v in vals], ln)
     f = ex.resolve(BUILTIN[name])
-    unit = "builtin (%s x ...) %s" % (name, "exact operands" if "Real" not in allow else "operands of any exactness")
+    unit = "builtin (%s x ...) %s" % (name, "exact operands" if "Real" not in allow else ("integer/real operands" if "Rational" not in allow else "operands of any exactness"))
     inputs = {"argc": ln}
     chk.region_ns = {}
     for k, v in enumerate(vals):
@@ -190,7 +190,7 @@ def spec_extreme(chk, name, N, allow=("Integer", "Rational", "Real")):
         ex.ctx.add(v.is_number, v.num.valid())
     seq = nl.seq_of(ex, "args", [v.obj for v in vals], ln)
     f = ex.resolve("base::" + name)
-    unit = "builtin (%s x ...) %s" % (name, "exact operands" if "Real" not in allow else "operands of any exactness")
+    unit = "builtin (%s x ...) %s" % (name, "exact operands" if "Real" not in allow else ("integer/real operands" if "Rational" not in allow else "operands of any exactness"))
     inputs = {"argc": ln}
     chk.region_ns = {}
     for k, v in enumerate(vals):
@@ -403,10 +403,14 @@ def run(chk):
         chk.step("nary-exact " + name, spec_nary, chk, name, N, EX)
         if thorough:
             chk.step("nary-mixed " + name, spec_nary, chk, name, 2)
+        elif name == "<":
+            chk.step("nary-mixed(int/real) " + name, spec_nary, chk, name, 2, ("Integer", "Real"))
     for name in ("max", "min"):
         chk.step("extreme-exact " + name, spec_extreme, chk, name, N, EX)
         if thorough:
             chk.step("extreme-mixed " + name, spec_extreme, chk, name, 2)
+        else:
+            chk.step("extreme-mixed(int/real) " + name, spec_extreme, chk, name, 2, ("Integer", "Real"))
     chk.step("eqv", spec_eqv, chk)
     chk.step("order-laws", spec_order_laws, chk)
     if thorough:
